@@ -16,6 +16,7 @@ import Kopf.Model.C04_Diff
 import Kopf.Model.C04_Essence
 import Kopf.Model.C04_Guards
 import Kopf.Lemmas.C04_Marker
+import Kopf.Lemmas.C04_MultiClean
 namespace Kopf.C04
 open Kopf Kopf.J
 
@@ -446,5 +447,62 @@ theorem own_key_unmarked_invisible_partial (cfg : Cfg) (extra : List (List Strin
 example : markedPrefix? "kopf.dev/last-handled-configuration" = none
     ∧ (makeKeys hashes0 true "kopf.dev".toList "last-handled-configuration".toList).toOption =
         some ["kopf.dev/last-handled-configuration"] := by decide
+
+/-! ## what every nested storage cleans stays cleaned (MultiDiffBaseStorage: refinement, any order) -/
+
+/-- **The stored last-handled state never counts, for every nested storage, whatever the handlers'
+    fields** (every diff-base configuration: a single storage, or `MultiDiffBaseStorage` with ANY list
+    of nested storages in ANY order — each nested `build` refines the essence the previous ones left,
+    the pseudo-body adds back only `kind` and `metadata.ownerReferences`):
+    * the field of every (nested) `StatusDiffBaseStorage` is absent from the essence — even when a
+      handler field (`extra`) covers it (`@kopf.on.field(field='status')` with
+      `Multi([Status(field='status.diff-base'), Annotations()])`, the transitional set-up of the docs);
+    * every annotation name `make_keys` forms for the REAL body (`-ofDRS` mark included) of every
+      (nested) `AnnotationsDiffBaseStorage` is absent — even with a handler on `metadata.annotations`.
+    So a `store` of the last-handled state writes only to locations that are not in the essence: the
+    next event's essence is the same, handling cannot trigger itself through it.
+
+    `_partial`: the full clause "NO location a storage writes is in the essence" is false of the code —
+    the `<prefix>/kopf-managed` marker written along is restored by a handler field that covers
+    `metadata.annotations` (open finding F8, `multi_marker_restored_witness`). -/
+theorem nested_own_writes_cleaned_partial (cfg : Cfg) (extra : List (List String)) (body e : J)
+    (h : essence cfg extra body = .ok e) :
+    (∀ f ig, DiffBaseLeaf.status f ig ∈ diffbaseLeaves cfg.diffbase → PseudoApart f → Absent e f) ∧
+    (∀ p key v1 ig ks k, DiffBaseLeaf.annotations p key v1 ig ∈ diffbaseLeaves cfg.diffbase →
+        keysFor cfg.hashes v1 p key body = .ok ks → k ∈ ks → Absent e ["metadata", "annotations", k]) :=
+  ⟨fun _ _ hl hp => essence_status_field_absent hl hp h,
+   fun _ _ _ _ _ _ hl hks hk => essence_own_keys_absent hl hks hk h⟩
+
+/-- **`ignored_fields` of EVERY nested storage are ignored** (first, middle or last in the list; also
+    the single storages): the field is absent from the essence whatever the handlers' fields, so a
+    change of it never counts. -/
+theorem nested_ignored_fields_cleaned (cfg : Cfg) (extra : List (List String)) (body e : J) (l : DiffBaseLeaf)
+    (f : List String) (hl : l ∈ diffbaseLeaves cfg.diffbase) (hf : f ∈ leafIgnored l) (hp : PseudoApart f)
+    (h : essence cfg extra body = .ok e) : Absent e f :=
+  essence_ignored_absent hl hf hp h
+
+/-- **The order of the nested storages does not matter for what is cleaned**: for two
+    `MultiDiffBaseStorage`s whose lists are permutations of each other, both essences lack the own
+    status fields, the own annotation keys and the ignored fields of ALL nested storages (the seeded
+    change C04d — each nested build gets the real body, only the LAST one's cleaning survives — breaks
+    exactly this). -/
+theorem multi_cleaning_order_independent (ls ls' : List DiffBaseLeaf) (pc : ProgressCfg) (hs : Hashes)
+    (extra : List (List String)) (body e e' : J) (hperm : ls.Perm ls')
+    (h : essence ⟨.multi ls, pc, hs⟩ extra body = .ok e) (h' : essence ⟨.multi ls', pc, hs⟩ extra body = .ok e') :
+    (∀ f ig, DiffBaseLeaf.status f ig ∈ ls → PseudoApart f → Absent e f ∧ Absent e' f) ∧
+    (∀ p key v1 ig ks k, DiffBaseLeaf.annotations p key v1 ig ∈ ls → keysFor hs v1 p key body = .ok ks → k ∈ ks →
+        Absent e ["metadata", "annotations", k] ∧ Absent e' ["metadata", "annotations", k]) ∧
+    (∀ l f, l ∈ ls → f ∈ leafIgnored l → PseudoApart f → Absent e f ∧ Absent e' f) := by
+  refine ⟨fun f ig hl hp => ⟨?_, ?_⟩, fun p key v1 ig ks k hl hks hk => ⟨?_, ?_⟩, fun l f hl hf hp => ⟨?_, ?_⟩⟩
+  · exact essence_status_field_absent (cfg := ⟨.multi ls, pc, hs⟩) hl hp h
+  · exact essence_status_field_absent (cfg := ⟨.multi ls', pc, hs⟩) (hperm.mem_iff.1 hl) hp h'
+  · exact essence_own_keys_absent (cfg := ⟨.multi ls, pc, hs⟩) hl hks hk h
+  · exact essence_own_keys_absent (cfg := ⟨.multi ls', pc, hs⟩) (hperm.mem_iff.1 hl) hks hk h'
+  · exact essence_ignored_absent (cfg := ⟨.multi ls, pc, hs⟩) hl hf hp h
+  · exact essence_ignored_absent (cfg := ⟨.multi ls', pc, hs⟩) (hperm.mem_iff.1 hl) hf hp h'
+
+/-- the guard is met by the usual locations. -/
+example : PseudoApart ["status", "diff-base"] ∧ PseudoApart ["spec", "replicas"] ∧ PseudoApart ["metadata", "labels", "tier"] := by
+  refine ⟨⟨by simp, by simp, ?_⟩, ⟨by simp, by simp, ?_⟩, ⟨by simp, by simp, ?_⟩⟩ <;> (intro ⟨t, ht⟩; simp at ht)
 
 end Kopf.C04
